@@ -295,8 +295,28 @@ def r1b(ctx: Ctx) -> RuleReport:
                         and defst.lineno < loops_[0].lineno and Tn in fi.params
                 rep.add('penman.layout:_interpret_node: the synthetic instance triple is listed first', fi.loc(n),
                         'ok' if first else 'undecided', f'inserted at {norm(n.args[0])}')
-                rep.add('penman.layout:_interpret_node: it is added exactly when no concept branch was seen', fi.loc(n),
-                        'ok' if ('has_concept', False) in facts else 'undecided')
+                if ('has_concept', False) in facts:
+                    rep.ok('penman.layout:_interpret_node: it is added exactly when no concept branch was seen', fi.loc(n))
+                else:
+                    # the decision is read off a list that also holds the triples of the nested nodes?
+                    scan = None
+                    for f_, pol_ in facts:
+                        try:
+                            fe = ast.parse(f_, mode='eval').body
+                        except SyntaxError:
+                            continue
+                        for g_ in [x for x in ast.walk(fe) if isinstance(x, ast.comprehension)]:
+                            if norm(g_.iter) == Tn:
+                                scan = f_
+                    nested_in = [x for x in walk_local(fi.node) if isinstance(x, ast.Call) and isinstance(x.func, ast.Attribute) and x.func.attr in ('extend', '__iadd__')
+                                 and norm(x.func.value) == Tn]
+                    if scan and nested_in:
+                        rep.violation('penman.layout:_interpret_node: it is added exactly when no concept branch was seen', fi.loc(n),
+                                      f'whether the node has a concept is read off `{Tn}` (`{scan[:70]}`), but `{norm(nested_in[0])[:40]}` also puts the triples of every nested node '
+                                      f'there: an instance triple with the same source further down - "(a :ARG0 (b / beta :ARG1 (a / alpha)))", or an inverted ":instance-of a" that was '
+                                      f'deinverted - is taken for this node\'s concept, and the node loses its (a :instance None) triple')
+                    else:
+                        rep.undecided('penman.layout:_interpret_node: it is added exactly when no concept branch was seen', fi.loc(n))
         if _recv_call(n, 'append') == Tn:
             payload = single_def(ctx, fi, n.args[0])
             if isinstance(payload, ast.Tuple) and len(payload.elts) == 3 and norm(payload.elts[1]) == 'CONCEPT_ROLE' \
@@ -1244,11 +1264,18 @@ def r83(ctx: Ctx) -> RuleReport:
         rep.undecided(f'{fi.fq}: a variable is chosen inside the search loop', fi.loc(), f'no assignment to {var.id}')
         return rep
     for h in hits:
-        loop = next((a for a in _ancestors(pm, h) if isinstance(a, (ast.For, ast.While))), None)
+        loops_h = [a for a in _ancestors(pm, h) if isinstance(a, (ast.For, ast.While))]
+        loop = loops_h[0] if loops_h else None
         key = f'{fi.fq}: `{norm(h)}` ends the search and the data are split at that datum'
         if loop is None:
             rep.undecided(key, fi.loc(h), 'not inside a loop')
             continue
+        # an inner loop over the two ends of the current triple (`for candidate in (source, target)`): the loop that matters is the enclosing
+        # one that walks the data, provided the hit leaves both loops at once
+        if len(loops_h) >= 2 and isinstance(loop, ast.For) and isinstance(loop.iter, (ast.Tuple, ast.List)):
+            outer_l = loops_h[1]
+            if not cfg.path_avoiding([(cfg.node_of(h), None)], {cfg.node_of(outer_l), cfg.node_of(loop)}, lambda nd: False):
+                loop = outer_l
         head = cfg.node_of(loop)
         hn = cfg.node_of(h)
         back = cfg.path_avoiding([(hn, None)], {head}, lambda nd: False)
